@@ -8,23 +8,29 @@ import (
 // New returns a new Topic
 func New[T any]() *Topic[T] {
 	return &Topic[T]{
-		subscribers: make(map[subscriptionID]chan<- T),
+		subscribers: make(map[subscriptionID]subscriber[T]),
 	}
 }
 
 // NewWithInitial returns a new Topic that is pre-seeded with a last value.
 func NewWithInitial[T any](v T) *Topic[T] {
 	return &Topic[T]{
-		subscribers: make(map[subscriptionID]chan<- T),
+		subscribers: make(map[subscriptionID]subscriber[T]),
 		last:        v,
 		hasLast:     true,
 	}
 }
 
+// subscriber is the publisher's view of one subscription
+type subscriber[T any] struct {
+	ch   chan<- T
+	done <-chan struct{} // closed when Subscription.Close() is called
+}
+
 // Topic is a single topic that subscribers can Subscribe() to
 type Topic[T any] struct {
 	mu          sync.Mutex
-	subscribers map[subscriptionID]chan<- T
+	subscribers map[subscriptionID]subscriber[T]
 	lastID      subscriptionID
 	last        T
 	hasLast     bool
@@ -37,8 +43,11 @@ func (t *Topic[T]) Publish(v T) {
 
 	t.last = v
 	t.hasLast = true
-	for _, ch := range t.subscribers {
-		ch <- v // blocking
+	for _, sub := range t.subscribers {
+		select {
+		case sub.ch <- v: // blocking
+		case <-sub.done: // subscription is being closed, do not wait for it
+		}
 	}
 }
 
@@ -73,7 +82,8 @@ func (t *Topic[T]) Subscribe(sendLast bool) *Subscription[T] {
 	t.lastID++
 	id := t.lastID
 
-	t.subscribers[id] = ch
+	done := make(chan struct{})
+	t.subscribers[id] = subscriber[T]{ch: ch, done: done}
 
 	if sendLast && t.hasLast {
 		// Will not block, because the channel is buffered and nothing
@@ -85,6 +95,7 @@ func (t *Topic[T]) Subscribe(sendLast bool) *Subscription[T] {
 		id:    id,
 		topic: t,
 		ch:    ch,
+		done:  done,
 	}
 	return sub
 }
@@ -112,10 +123,10 @@ func (t *Topic[T]) unsubscribeID(id subscriptionID) {
 	t.mu.Lock()
 	defer t.mu.Unlock()
 
-	ch, exists := t.subscribers[id]
+	sub, exists := t.subscribers[id]
 	if !exists {
 		return
 	}
-	close(ch)
+	close(sub.ch)
 	delete(t.subscribers, id)
 }
